@@ -43,6 +43,38 @@ Fixpoint fault_free (sc : scenario) (s : state) (tr : list event) : bool :=
   end.
 
 
+(* ---------- executable tests for the hypotheses `acyclic` / `nodes_ok` of the completeness theorems (soundness:
+   SystemAcyclic.v).  Ranks are assigned in passes: a job gets rank 1 + max rank of its blockers once all of them
+   (which must be configured jobs) have one; |jobs| passes suffice for an acyclic graph. ---------- *)
+Fixpoint lookup_rank (j : N) (a : list (N * nat)) : option nat :=
+  match a with [] => None | (k, r) :: t => if N.eqb j k then Some r else lookup_rank j t end.
+
+(* the rank a job could get now: 1 + the largest rank of its blockers, if they all have one *)
+Fixpoint deps_rank (ds : list N) (a : list (N * nat)) : option nat :=
+  match ds with
+  | [] => Some O
+  | d :: t => match lookup_rank d a, deps_rank t a with
+              | Some r, Some m => Some (Nat.max (S r) m)
+              | _, _ => None
+              end
+  end.
+
+Definition pass (sc : scenario) (a : list (N * nat)) : list (N * nat) :=
+  fold_left (fun acc j => match lookup_rank j acc with
+                          | Some _ => acc
+                          | None => match deps_rank (deps sc j) acc with Some r => (j, r) :: acc | None => acc end
+                          end) (all_jobs sc) a.
+
+Fixpoint passes (n : nat) (sc : scenario) (a : list (N * nat)) : list (N * nat) :=
+  match n with O => a | S k => passes k sc (pass sc a) end.
+
+Definition acyclicb (sc : scenario) : bool :=
+  let a := passes (length (sc_jobs sc)) sc [] in
+  forallb (fun j => match lookup_rank j a with Some _ => true | None => false end) (all_jobs sc)
+  && forallb (fun j => forallb (fun d => memN d (all_jobs sc)) (deps sc j)) (all_jobs sc).
+Definition nodes_okb (sc : scenario) : bool := depth_ok (sc_max_nodes sc) 0.
+
+
 (* index of the first event that is not fault-free (for diagnostics) *)
 Fixpoint first_fault (sc : scenario) (s : state) (tr : list event) (i : N) : option N :=
   match tr with
@@ -52,6 +84,7 @@ Fixpoint first_fault (sc : scenario) (s : state) (tr : list event) (i : N) : opt
               else Some i
   end.
 
-(* the acceptor's verdict, the monitors, whether the trace is fault-free, and where it stops being so *)
-Definition verdict2 (sc : scenario) (tr : list event) : (option N * list bool) * bool * option N :=
-  (verdict sc tr, fault_free sc init tr, first_fault sc init tr 0).
+(* the acceptor's verdict, the monitors, whether the trace is fault-free, where it stops being so, and whether the
+   scenario satisfies the static hypotheses (acyclic, at least one node) of the completeness theorems *)
+Definition verdict2 (sc : scenario) (tr : list event) : (option N * list bool) * bool * option N * bool :=
+  (verdict sc tr, fault_free sc init tr, first_fault sc init tr 0, acyclicb sc && nodes_okb sc).
